@@ -37,6 +37,73 @@ class IntSeq(object):
 
 _REGISTRY = {}
 _TUPLE_SORTS = {}
+_BY_DECL = {}
+_INST_CACHE = {}
+_INST_KEEP = []     # keeps the applications alive so that their ids are not reused
+UNFOLD_DEPTH = 2
+
+
+def spec_apps(exprs):
+    """all applications of spec functions occurring in the given z3 expressions"""
+    seen = set()
+    out = []
+    stack = list(exprs)
+    while stack:
+        e = stack.pop()
+        if e.get_id() in seen:
+            continue
+        seen.add(e.get_id())
+        if z3.is_quantifier(e):
+            stack.append(e.body())
+            continue
+        if z3.is_app(e):
+            d = e.decl()
+            if d.kind() == z3.Z3_OP_UNINTERPRETED and d.arity() > 0 and d.name() in _BY_DECL:
+                out.append(e)
+            stack.extend(e.children())
+    return out
+
+
+def _has_bound_var(e):
+    stack = [e]
+    seen = set()
+    while stack:
+        x = stack.pop()
+        if x.get_id() in seen:
+            continue
+        seen.add(x.get_id())
+        if z3.is_var(x):
+            return True
+        stack.extend(x.children())
+    return False
+
+
+def unfold_closure(exprs, depth=None):
+    """definitional instances for every spec application in exprs, and for the applications those
+    instances introduce, up to `depth` rounds"""
+    depth = UNFOLD_DEPTH if depth is None else depth
+    done = set()
+    out = []
+    frontier = list(exprs)
+    for _ in range(depth):
+        new = []
+        for app in spec_apps(frontier):
+            if app.get_id() in done or _has_bound_var(app):
+                continue
+            done.add(app.get_id())
+            fn = _BY_DECL[app.decl().name()]
+            inst = _INST_CACHE.get(app.get_id())
+            if inst is None:
+                inst = fn.instance(app.children())
+                _INST_CACHE[app.get_id()] = inst
+                _INST_KEEP.append(app)
+            out.append(inst)
+            new.append(inst)
+        if not new:
+            break
+        frontier = new
+    return out
+
 
 
 def _tuple_sort(kinds):
@@ -113,35 +180,35 @@ class SpecFn(object):
         raise Unsupported("return kind %r" % (self.ret,))
 
     def decl(self):
+        """Spec functions are *uninterpreted* z3 functions; their definitions enter a query as
+        explicit unfolding instances (see unfold_closure), which keeps every query in a decidable
+        quantifier-free fragment.  (Sound: any instance of the defining equation is true.)"""
         if self._decl is None:
-            self._decl = z3.RecFunction("S." + self.name, *(self._sorts() + [self._ret_sort()]))
-        if not self._defined:
-            self._defined = True
-            self._define()
+            self._decl = z3.Function("S." + self.name, *(self._sorts() + [self._ret_sort()]))
+            _BY_DECL[self._decl.name()] = self
         return self._decl
 
-    def _define(self):
-        zparams = []
+    def instance(self, zargs):
+        """the defining equation instantiated at the given z3 argument terms"""
         env = {}
+        it = iter(zargs)
         for (nm, k) in self.params:
             if k == "int":
-                v = z3.Int("p!" + nm); zparams.append(v); env[nm] = SInt(v)
+                env[nm] = SInt(next(it))
             elif k == "bool":
-                v = z3.Bool("p!" + nm); zparams.append(v); env[nm] = SBool(v)
+                env[nm] = SBool(next(it))
             elif k in ("Bytes", "IntList"):
-                a = z3.Array("p!" + nm, z3.IntSort(), z3.IntSort()); n = z3.Int("p!" + nm + "!len")
-                zparams += [a, n]
+                a = next(it); n = next(it)
                 env[nm] = SSeq(n, (lambda a: lambda i: SInt(z3.Select(a, i)))(a), kind="bytes" if k == "Bytes" else "list", base=(nm, a, n))
             elif k == "PairList":
-                a = z3.Array("p!" + nm + "!0", z3.IntSort(), z3.IntSort()); b = z3.Array("p!" + nm + "!1", z3.IntSort(), z3.IntSort()); n = z3.Int("p!" + nm + "!len")
-                zparams += [a, b, n]
+                a = next(it); b = next(it); n = next(it)
                 env[nm] = SSeq(n, (lambda a, b: lambda i: (SInt(z3.Select(a, i)), SInt(z3.Select(b, i))))(a, b), kind="list", base=(nm, a, b, n))
             elif k == "IntSet":
-                a = z3.Array("p!" + nm, z3.IntSort(), z3.BoolSort()); zparams.append(a); env[nm] = SSet(a)
+                env[nm] = SSet(next(it))
             elif k == "IntSeq":
-                a = z3.Const("p!" + nm, z3.SeqSort(z3.IntSort())); zparams.append(a); env[nm] = sym.ZSeq(a)
+                env[nm] = sym.ZSeq(next(it))
         body = _Translator(self).block(self.node.body, env)
-        z3.RecAddDefinition(self._decl, zparams, self._pack(body))
+        return self.decl()(*zargs) == self._pack(body)
 
     def _pack(self, v):
         if self.ret == "int":
